@@ -390,6 +390,20 @@ def gen_meta_value(rng, spec, app, mname, prop, uniq, safe=False):
     cols = [n for n, f in mspec['fields']
             if f['kind'] not in ('ManyToMany', 'Text')]
     cur = copy.deepcopy((mspec.get('meta') or {}).get(prop) or [])
+    # the same entry with its columns in another order (same name for named
+    # indexes / constraints): a different index on the same column set
+    multi = [i for i, x in enumerate(cur)
+             if len(x if isinstance(x, list) else x.get('fields') or []) > 1]
+    if multi and rng.random() < 0.2:
+        i = rng.choice(multi)
+        if isinstance(cur[i], list):
+            if sorted(cur[i]) in [sorted(x) for j, x in enumerate(cur)
+                                  if j != i]:
+                return None
+            cur[i] = cur[i][::-1]
+        else:
+            cur[i]['fields'] = cur[i]['fields'][::-1]
+        return cur
     if prop in ('unique_together', 'index_together'):
         choice = rng.random()
         if cur and choice < 0.35:
@@ -581,10 +595,23 @@ class SpecGen(object):
             if fdef['kind'] == 'ManyToMany':
                 return e
             if fdef['kind'] in ('ForeignKey', 'OneToOne'):
-                # a relation column cannot get a meaningful constant initial
+                # a relation column only gets a constant initial where the
+                # rows of the case make it satisfiable: the target table has
+                # a row with id 1 (row_counts is set by checks that insert
+                # rows) and, for a unique column, at most one row is filled
                 fdef['null'] = True
-                if self.rows and fdef['kind'] == 'OneToOne':
-                    pass
+                counts = getattr(self, 'row_counts', None)
+                if counts is not None and rng.random() < 0.5:
+                    ta, tm = fdef['to'].split('.')
+                    n_target = counts.get((ta, tm), 0)
+                    n_own = counts.get((app, mname))
+                    uniq = fdef['kind'] == 'OneToOne' or fdef.get('unique')
+                    if n_target >= 1 and n_own is not None and \
+                            (not uniq or n_own <= 1):
+                        e['initial'] = 1
+                        e['rel_initial'] = True
+                        if rng.random() < 0.5:
+                            fdef.pop('null')
                 return e
             if not fdef.get('null') or rng.random() < 0.3:
                 e['initial'] = gen_initial(rng, fdef,
